@@ -137,6 +137,12 @@ PROGRAMS += [
     "import contextlib\nlog=[]\n@contextlib.contextmanager\ndef manager():\n    log.append('enter')\n    yield\n    log.append('exit')\ndef managed(flag):\n    with manager():\n        if flag:\n            log.append('early')\n            return None\n        log.append('late')\n    log.append('after')\n    return\nmanaged(True);managed(False)\nprint(log)",
     "log=[]\ndef classify(value):\n    match value:\n        case int():\n            log.append('int')\n            return\n        case _:\n            log.append('other')\n    log.append('fallthrough')\nclassify(1);classify('s')\nprint(log)",
 ]
+# a handler / pattern / import name that coincides with an ordinary local of the same function
+PROGRAMS += [
+    "def reuse_handler_name():\n    problem='no problem yet'\n    before=problem\n    try:\n        raise ValueError('went wrong')\n    except ValueError as problem:\n        during=str(problem)\n    try:\n        after=problem\n    except NameError:\n        after='cleared'\n    return before,during,after\nprint(reuse_handler_name())",
+    "def reuse_pattern_name(subject):\n    captured='initial value'\n    rest_of_mapping={}\n    match subject:\n        case {'key': captured, **rest_of_mapping}:\n            pass\n        case [captured, *rest_of_mapping]:\n            pass\n    return captured,rest_of_mapping\nprint(reuse_pattern_name({'key':1,'other':2}),reuse_pattern_name([1,2,3]),reuse_pattern_name(5))",
+    "def reuse_import_name():\n    json='not a module'\n    first=json\n    import json\n    return first,json.dumps([1])\nprint(reuse_import_name())",
+]
 PROGRAMS += list(KNOWN_PROGRAMS)
 # fixed in 7a1a7a4 / f054637: a regression is an ordinary violation
 PROGRAMS.append("value='global value'\ndef outer():\n    value='function value'\n    class Inner:\n        seen=value\n        value='class value'\n    return Inner.seen\nprint(outer())")
